@@ -681,7 +681,7 @@ func isReset(err error) bool {
 
 // rawExchange writes data under the segmentation schedule and reads the reply stream.
 // rawStall: connect, write data, never read; when release is closed, close the connection.
-func rawStall(h *exchangeHooks, network, addr string, data []byte, release <-chan struct{}) (*Exchange, error) {
+func rawStall(h *exchangeHooks, network, addr string, data []byte, release <-chan struct{}, firstByte func()) (*Exchange, error) {
 	c, local, err := dialRaw(network, addr)
 	if h != nil && h.afterDial != nil {
 		h.afterDial()
@@ -695,6 +695,13 @@ func rawStall(h *exchangeHooks, network, addr string, data []byte, release <-cha
 		if _, err := c.Write(data); err != nil {
 			ex.WriteErr = err
 		}
+		// take the first byte of whatever comes back (the service has begun to answer), then stop reading for good
+		c.SetReadDeadline(time.Now().Add(10 * time.Second))
+		one := make([]byte, 1)
+		c.Read(one)
+	}
+	if firstByte != nil {
+		firstByte()
 	}
 	<-release
 	c.Close()
